@@ -60,7 +60,7 @@ theorem oversize_undeclared_400 (env : Env) (caller : Caller) (r : Req) (h : r.b
 
 /-- **C15(c)** a body of exactly the limit or less is accepted and relayed intact -/
 theorem at_limit_relayed_intact (env : Env) (caller : Caller) (r : Req) (h : r.body.length ≤ specLimit r)
-    (hs : sigInput r.method r.body (ownedHeaders env caller r) r.uri ≠ none) :
+    (hs : sigInput r.method r.body (signedHeaders r (ownedHeaders env caller r)) r.uri ≠ none) :
     ∃ u, forwardStage mac env caller r = .forward u ∧ u.body = r.body := by
   unfold forwardStage
   simp only
@@ -75,7 +75,7 @@ theorem at_limit_relayed_intact (env : Env) (caller : Caller) (r : Req) (h : r.b
       obtain ⟨g, k⟩ := gk
       simp only
       cases hsi : sigInput r.method r.body
-          (insert dateHeader env.now (insert claimsHeader (claimsValue caller.elevated) (ofWire r.headers))) r.uri with
+          (signedHeaders r (insert dateHeader env.now (insert claimsHeader (claimsValue caller.elevated) (ofWire r.headers)))) r.uri with
       | none => exact absurd hsi hs
       | some si =>
         simp only
